@@ -38,6 +38,8 @@ type Solver struct {
 	tt        *TermTable
 	last      string
 	CacheHits int
+	Fallbacks int
+	alts      map[string]*proc
 }
 
 var queryCache sync.Map
@@ -64,7 +66,11 @@ func NewSolver(argv []string) *Solver {
 }
 
 func (s *Solver) Close() {
-	for _, p := range []*proc{s.inc, s.one} {
+	all := []*proc{s.inc, s.one}
+	for _, a := range s.alts {
+		all = append(all, a)
+	}
+	for _, p := range all {
 		if p != nil {
 			p.in.Close()
 			p.cmd.Wait()
@@ -142,6 +148,48 @@ func (s *Solver) Check(roots []*Term, want []*Term) (string, map[string]string) 
 		}
 		if l == "sat" || l == "unsat" || l == "unknown" {
 			verdict = l
+		}
+	}
+	if verdict == "unknown" && s.argv[0] == "z3" {
+		// portfolio: the query goes to z3 5.1 (z3-new), then to cvc5
+		for _, alt := range [][]string{{"z3-new", "-in", "-t:60000"}, {"cvc5", "--incremental", "--produce-models", "--tlimit-per=60000", "--lang=smt2"}} {
+			key := alt[0]
+			if s.alts == nil {
+				s.alts = map[string]*proc{}
+			}
+			ap := s.alts[key]
+			if ap == nil {
+				ap = startProc(alt)
+				s.alts[key] = ap
+			}
+			var ab strings.Builder
+			ab.WriteString("(reset)\n(set-option :produce-models true)\n")
+			if key == "cvc5" {
+				ab.WriteString("(set-logic ALL)\n")
+			}
+			ab.WriteString(script)
+			for i := range roots {
+				fmt.Fprintf(&ab, "(assert %s)\n", names[i])
+			}
+			ab.WriteString("(check-sat)\n(echo \"<<done>>\")\n")
+			io.WriteString(ap.in, ab.String())
+			ares := ap.readUntilDone()
+			av := "unknown"
+			bad := false
+			for _, l := range ares {
+				if strings.Contains(l, "(error") {
+					bad = true
+				}
+				if l == "sat" || l == "unsat" {
+					av = l
+				}
+			}
+			s.Fallbacks++
+			if !bad && av != "unknown" {
+				verdict = av
+				p = ap
+				break
+			}
 		}
 	}
 	s.last = verdict
